@@ -156,7 +156,7 @@ def anchors_of(prop):
 
 
 def run(prop, say=print, limit=600, jobs=16):
-    base = Repo()
+    base = Repo(normalise=False)      # sites are enumerated on the source as written (the mutant is spliced into the source text)
     tasks = []
     for (mod, cls, name) in anchors_of(prop):
         node = base.funcs.get((mod, cls, name))
